@@ -71,7 +71,7 @@ def gen_step(rng, i):
 
 def gen_setting(rng, i):
     mode = ['normal', 'all', 'kinds'][i % 3]
-    kinds = rng.sample(['csv', 'table', 'graph', 'other'], rng.randint(1, 2)) if mode == 'kinds' else []
+    kinds = rng.sample(['csv', 'table', 'graph', 'other'], rng.randint(1, 3)) if mode == 'kinds' else []
     via = ['api', 'argv', 'api', 'argv', 'api', 'pytest'][(i // 3) % 6]
     s = {'mode': mode, 'kinds': kinds, 'via': via, 'argv': [], 'spelling': None}
     if via == 'argv':
@@ -86,7 +86,7 @@ def gen_setting(rng, i):
         elif mode == 'kinds':
             sp = rng.choice(['-w', '--w', '--write'])
             argv = [a for a in pre if not a.startswith('--')] + [a for a in pre if a.startswith('--')] + [sp] + \
-                ([','.join(kinds)] if rng.random() < 0.5 else list(kinds))
+                spell_kinds(rng, kinds)
         else:
             sp = None
             argv = [a for a in pre if not a.startswith('--')] + [a for a in pre if a.startswith('--')]
@@ -96,11 +96,25 @@ def gen_setting(rng, i):
         if mode == 'all':
             s['argv'], s['spelling'] = pre + ['--write-all'], 'pytest --write-all'
         elif mode == 'kinds':
-            s['argv'] = pre + ['--write'] + ([','.join(kinds)] if rng.random() < 0.5 else list(kinds))
+            s['argv'] = pre + ['--write'] + spell_kinds(rng, kinds)
             s['spelling'] = 'pytest --write'
         else:
             s['argv'], s['spelling'] = pre, None
     return s
+
+
+def spell_kinds(rng, kinds):
+    """The documented ways of naming several kinds: separate parameters, one comma-separated
+    parameter, or a mixture of both."""
+    k = rng.random()
+    if len(kinds) == 1 or k < 0.35:
+        return list(kinds)
+    if k < 0.65:
+        return [','.join(kinds)]
+    cut = rng.randint(1, len(kinds) - 1)
+    parts = [','.join(kinds[:cut])] + ([','.join(kinds[cut:])] if rng.random() < 0.5 else list(kinds[cut:]))
+    rng.shuffle(parts)
+    return parts
 
 
 def gen_case(rng, i):
